@@ -297,8 +297,9 @@ def task_id_of(task, ordered, ekind, numpy_in):
     """index of a task as the dispatcher queued it"""
     a = task[1] if ordered else task
     if numpy_in:
+        import numpy as _np
         a = a[0] if isinstance(a, tuple) else a
-        return int(a[0][0])
+        return int(_np.asarray(a).ravel()[0])
     if ekind == 'badrepr':
         return a.v
     if ekind == 'scalar':
@@ -315,7 +316,8 @@ def task_id_of(task, ordered, ekind, numpy_in):
 def result_id_of(val, ordered, numpy_in):
     v = val[1] if ordered else val
     if numpy_in:
-        return int(round((float(v[0][0]) - 1) / 3))
+        import numpy as _np
+        return int(round((float(_np.asarray(v).ravel()[0]) - 1) / 3))
     return (v - 1) // 3
 
 
@@ -833,8 +835,9 @@ def _run(sc, S, obs):
             wid, shared_ok, state, rest = extras_check(args, cfg)
             t0 = S.now - S.t0
             if numpy_in:
+                import numpy as _np
                 arr = rest[0]
-                idx = int(arr[0][0])
+                idx = int(_np.asarray(arr).ravel()[0])       # (2-D input: first column of the first row; 1-D input: first element)
                 conv = len(rest) == 1
             else:
                 idx, conv = idx_of_call(ekind, rest, kwargs)
@@ -1123,6 +1126,8 @@ def _make_input(op, log):
         # (`gen_endless`: the input never ends by itself — the call is bounded by `iterable_len` alone)
         return logged_gen(10 ** 9 if op.get('gen_endless') else n, ek, log, op.get('gen_pause', 0.0), op.get('gen_tail', 0.0), op.get('input_raises_at'))
     if kind == 'nd':
+        if op.get('nd_dims') == 1:
+            return np.arange(n)                  # a one-dimensional array: the chunks are 1-D slices
         return np.arange(n * 2).reshape(n, 2) * 1.0 + 0.0 if False else np.stack([np.arange(n), np.arange(n) * 2], axis=1)
     raise AssertionError(kind)
 
